@@ -453,7 +453,10 @@ def check_domfd(ctx, lib, rule):
                 if good:
                     s2 = tables.find_arm(r, "Some")
                     n2 = tables.find_arm(r, "None")
-                    good = len(s2) == 1 and len(n2) == 1 and unify(("call", P("resolve_storable_domain"), (pat("@0"), pat("@1"), ("proj", r[1], ANY, 0))), tables.result(s2[0][2])) is not None and unify(pat("Err(_)"), tables.result(n2[0][2])) is not None
+                    good = len(s2) == 1 and len(n2) == 1 and s2[0][1] is None and n2[0][1] is None and unify(("call", P("resolve_storable_domain"), (pat("@0"), pat("@1"), ("proj", r[1], ANY, 0))), tables.result(s2[0][2])) is not None and unify(pat("Err(_)"), tables.result(n2[0][2])) is not None
+                    # no shortcut before the store update (an intersection that removes only interior
+                    # values has the same bounds as the old domain)
+                    good = good and not [e for e in tables.flatten(s2[0][2])[0] if not tables.harmless_effect(e)] and not [e for e in tables.flatten(some[0][2])[0] if not tables.harmless_effect(e)]
                 good = good and unify(pat("resolve_storable_domain(@0, @1, @2)"), tables.result(none[0][2])) is not None
         ctx.expect(good, rule, fn["npath"] + "|intersects", site_of(fn), "a constrained variable gets the intersection of old and new domain (empty -> fail); an unconstrained one the new domain")
     fn = streams.getfn(ctx, lib, rule, "crate::state::State::resolve_storable_domain")
